@@ -116,7 +116,11 @@ fn model(t: &mut Tree, op: &Op) -> Exp {
                         (true, Some(Node::File(d))) => d.clone(),
                         _ => vec![],
                     };
-                    data.extend_from_slice(c.as_bytes());
+                    if c == "@ff00" {
+                        data.extend_from_slice(&[0xff, 0x00]);
+                    } else {
+                        data.extend_from_slice(c.as_bytes());
+                    }
                     t.insert(p.clone(), Node::File(data));
                     tr()
                 }
@@ -333,6 +337,9 @@ impl C18 {
                 ops.push(Op::Append(p.clone(), c.clone()));
             }
             ops.push(Op::WriteBin(p.clone(), "x".into()));
+            // two bytes that are not valid UTF-8 (built with base64_decode): readfile must fail on them,
+            // the binary read must give them back
+            ops.push(Op::WriteBin(p.clone(), "@ff00".into()));
             ops.push(Op::Read(p.clone()));
             ops.push(Op::ReadBin(p.clone()));
             ops.push(Op::Touch(p.clone()));
@@ -434,10 +441,13 @@ impl Sys for C18 {
         let out: Out = match op {
             Op::Write(p, c) => sess.call("writefile", &[&abs(p), c]),
             Op::Append(p, c) => sess.call("appendfile", &[&abs(p), c]),
-            Op::WriteBin(p, c) => match sess.call("string_to_bytes", &[c]) {
-                Out::Val(Some(h)) => sess.call("writebinfile", &[&abs(p), &h]),
-                o => o,
-            },
+            Op::WriteBin(p, c) => {
+                let made = if c == "@ff00" { sess.call("base64_decode", &["/wA="]) } else { sess.call("string_to_bytes", &[c]) };
+                match made {
+                    Out::Val(Some(h)) => sess.call("writebinfile", &[&abs(p), &h]),
+                    o => o,
+                }
+            }
             Op::Read(p) => sess.call("readfile", &[&abs(p)]),
             Op::ReadBin(p) => match sess.call("readbinfile", &[&abs(p)]) {
                 Out::Val(Some(h)) => match sess.handle(&h) {
